@@ -156,6 +156,8 @@ impl Storage {
         };
 
         let earliest_uncommited_wal_id = meta_store.earliest_uncommited_wal_id();
+        #[cfg(locustdb_verif)]
+        crate::verif::event("RecMeta", || serde_json::json!({"cursor": earliest_uncommited_wal_id, "parts": meta_store.verif_parts()}));
         log::info!(
             "Recovering from wal checkpoint {}",
             earliest_uncommited_wal_id
@@ -200,7 +202,11 @@ impl Storage {
                         writer.delete(&path).unwrap();
                         log::info!("Deleting wal segment {}", path.display());
                     }
+                    #[cfg(locustdb_verif)]
+                    crate::verif::event("RecWal", || serde_json::json!({"id": wal_segment.id, "file": path.file_name().map(|f| f.to_string_lossy().to_string()), "action": "deleted"}));
                 } else {
+                    #[cfg(locustdb_verif)]
+                    crate::verif::event("RecWal", || serde_json::json!({"id": wal_segment.id, "file": path.file_name().map(|f| f.to_string_lossy().to_string()), "action": "registered"}));
                     meta_store.register_wal_segment(wal_segment.id);
             wal_size += size;
             wal_segments.push(wal_segment);
@@ -243,6 +249,9 @@ impl Storage {
                     &data,
                 )
                 .unwrap();
+            #[cfg(locustdb_verif)]
+            crate::verif::event("PersistSub", || serde_json::json!({"table": partition.tablename, "pid": partition.id, "key": metadata.subpartition_key,
+                "last_column": metadata.last_column, "cols": cols.iter().map(|c| c.name().to_string()).collect::<Vec<_>>(), "compaction": is_compaction}));
         }
     }
 
@@ -254,11 +263,18 @@ impl Storage {
         {
             let mut meta_store = self.meta_store.write().unwrap();
             segment.id = meta_store.add_wal_segment();
+            #[cfg(locustdb_verif)]
+            crate::verif::event("WalAssign", || serde_json::json!({"id": segment.id}));
         }
         let path = self.wal_dir.join(format!("{}.wal", segment.id));
         let data = segment.serialize();
         self.perf_counter.disk_write_wal(data.len() as u64);
         self.writer.store(&path, &data).unwrap();
+        #[cfg(locustdb_verif)]
+        {
+            crate::verif::event("WalStored", || serde_json::json!({"id": segment.id, "bytes": data.len()}));
+            crate::verif::sync("ingest:wal-written");
+        }
         data.len() as u64
     }
 
@@ -289,6 +305,8 @@ impl Storage {
                 io_threadpool.execute(move || {
                     storage.write_subpartitions(&partition, subpartitions, false);
                     let mut meta_store = storage.meta_store.write().unwrap();
+                    #[cfg(locustdb_verif)]
+                    crate::verif::event("MsInsert", || serde_json::json!({"table": partition.tablename, "pid": partition.id, "offset": partition.offset, "len": partition.len}));
                     meta_store.insert_partition(partition);
                     tx.send(()).unwrap();
                 });
@@ -309,6 +327,8 @@ impl Storage {
 
                 let span_lock_meta_store = tracer.start_span("lock_meta_store");
                 let mut meta_store = self.meta_store.write().unwrap();
+                #[cfg(locustdb_verif)]
+                crate::verif::event("MsInsert", || serde_json::json!({"table": partition.tablename, "pid": partition.id, "offset": partition.offset, "len": partition.len}));
                 meta_store.insert_partition(partition);
                 tracer.end_span(span_lock_meta_store);
             }
@@ -342,6 +362,8 @@ impl Storage {
                 io_threadpool.execute(move || {
                     let path = storage.wal_dir.join(format!("{}.wal", id));
                     storage.writer.delete(&path).unwrap();
+                    #[cfg(locustdb_verif)]
+                    crate::verif::event("DeleteWal", || serde_json::json!({"id": id}));
                     tx.send(()).unwrap();
                 });
             }
@@ -352,6 +374,8 @@ impl Storage {
             for id in ids {
                 let path = self.wal_dir.join(format!("{}.wal", id));
                 self.writer.delete(&path).unwrap();
+                #[cfg(locustdb_verif)]
+                crate::verif::event("DeleteWal", || serde_json::json!({"id": id}));
             }
         }
 
@@ -394,6 +418,9 @@ impl Storage {
         // Update metastore
         let mut meta_store = self.meta_store.write().unwrap();
         let to_delete = meta_store.delete_partitions(table, old_partitions);
+        #[cfg(locustdb_verif)]
+        crate::verif::event("CompactMs", || serde_json::json!({"table": table, "cid": id, "offset": partition.offset, "len": partition.len, "old": old_partitions,
+            "to_delete": to_delete.iter().map(|(i, k)| serde_json::json!({"pid": i, "key": k})).collect::<Vec<_>>()}));
         meta_store.insert_partition(partition);
 
         to_delete
@@ -423,6 +450,8 @@ impl Storage {
                         let table_dir = storage.tables_path.join(sanitize_table_name(&table));
                         let path = table_dir.join(partition_filename(id, &key));
                         storage.writer.delete(&path).unwrap();
+                        #[cfg(locustdb_verif)]
+                        crate::verif::event("DeleteOrphan", || serde_json::json!({"table": table, "pid": id, "key": key}));
                         tx.send(()).unwrap();
                     });
                 }
@@ -442,6 +471,8 @@ impl Storage {
                     let table_dir = self.tables_path.join(sanitize_table_name(table));
                     let path = table_dir.join(partition_filename(*id, key));
                     self.writer.delete(&path).unwrap();
+                    #[cfg(locustdb_verif)]
+                    crate::verif::event("DeleteOrphan", || serde_json::json!({"table": table, "pid": id, "key": key}));
                 }
             }
         }
@@ -463,6 +494,8 @@ impl Storage {
         tracer.end_span(span_clone_meta_store);
 
         self.write_metastore(&meta_store, tracer);
+        #[cfg(locustdb_verif)]
+        crate::verif::event("PersistMeta", || serde_json::json!({"cursor": meta_store.earliest_uncommited_wal_id(), "next_wal": meta_store.next_wal_id(), "parts": meta_store.verif_parts()}));
         tracer.end_span(span_persist_metastore);
     }
 
@@ -482,6 +515,11 @@ impl Storage {
             .tables_path
             .join(sanitize_table_name(table_name))
             .join(partition_filename(partition, &subpartition_key));
+        #[cfg(locustdb_verif)]
+        {
+            crate::verif::sync("load:before-read");
+            crate::verif::event("Load", || serde_json::json!({"table": table_name, "pid": partition, "col": column_name, "key": subpartition_key}));
+        }
         let data = self.writer.load(&path).unwrap();
         self.perf_counter.disk_read_partition(data.len() as u64);
         perf_counter.disk_read(data.len() as u64);
@@ -534,4 +572,14 @@ fn sanitize_table_name(table_name: &str) -> String {
         name = format!("-{}-{:x}", name, hasher.finalize());
     }
     name
+}
+
+#[cfg(locustdb_verif)]
+pub fn verif_partition_filename(id: PartitionID, subpartition_key: &str) -> String {
+    partition_filename(id, subpartition_key)
+}
+
+#[cfg(locustdb_verif)]
+pub fn verif_sanitize_table_name(table_name: &str) -> String {
+    sanitize_table_name(table_name)
 }
